@@ -8,7 +8,7 @@ CLAIMED = {
     "C09": dict(
         level="fault_enumeration", ref="DESIGN.md 5.1",
         technique="deterministic simulation with fault injection on stored path data: seeded torn/lost/duplicated/corrupted records, crash-consistency oracles on the partially built path, deterministic step budget",
-        text="Fault model on stored path data (truncation at any position, token delete/duplicate/replace, character flips incl. control/non-ASCII, junk insertion, missing current point, bad flags, very long inputs) injected into grammar-directed strings and bare fragments; each run checks exception type, a deterministic line-step budget (termination), that the parse of the longest grammar-conforming prefix (independent recogniser) is retained unaltered, and that d()/bbox()/length()/abs(p*M) work on whatever was left behind; a history-independence oracle parses unrelated damaged data between two parses of the same string, the reference prefix is parsed by a pristine instance of the library, and runs execute in hermetic forked chunks so that a result depending on earlier calls is replayed with its minimal history. Fault kinds and positions are sampled per seed, not enumerated exhaustively.",
+        text="Fault model on stored path data (truncation at any position, token delete/duplicate/replace, character flips incl. control/non-ASCII, junk insertion, missing current point, bad flags, very long inputs) injected into grammar-directed strings and bare fragments; each run checks exception type, a deterministic line-step budget linear in the input (termination; every parse of the run is under it), that the parse of the longest grammar-conforming prefix (independent recogniser) is retained unaltered, and that d()/bbox()/length()/abs(p*M) work on whatever was left behind; a history-independence oracle parses unrelated damaged data between two parses of the same string, the reference prefix is parsed by a pristine instance of the library, and runs execute in hermetic forked chunks so that a result depending on earlier calls is replayed with its minimal history. Fault kinds and positions are sampled per seed, not enumerated exhaustively.",
         note="Trusted: the independent SVG 2 grammar recogniser in sim/gen_path.py (where SVG 1.1 and 2 disagree the prefix oracle is skipped and counted); the step-budget constants (20x the pinned tree's maximum); None is accepted only where no current point exists yet (documented path fragments); inf/nan literals skip the follow-up operations."),
     "C16": dict(
         level="exploration", ref="DESIGN.md 5.3",
@@ -29,12 +29,12 @@ CLAIMED["C18"] = dict(
 CLAIMED["C10"] = dict(
         level="fault_enumeration", ref="DESIGN.md 5.2",
         technique="deterministic simulation with fault injection on attribute values and on stream delivery: seeded faults x independently scheduled short-read delivery, differential isolation oracle against the document without the offending elements, deterministic step budget",
-        text="1-3 attribute faults per run from a grammar of syntactically malformed values (path data, transform, colour, length, points, viewBox, number) and use retargeting (missing, self, ancestor, mutual cycle), biased to containers, referenced elements and first/last children, injected into generated documents; the damaged document and the document without the offending elements reach SVG.parse through independently drawn delivery schedules (StringIO, BytesIO, short-read byte/text streams incl. 1-byte reads, simulated file with short raw reads). Oracles: no exception, bounded line steps, identity of every instance outside the offender's position in the returned tree (reference parsed by a pristine instance of the library, schedule-chosen order of the two parses), and history independence (an unrelated document parsed between two parses of the same one). Faults and schedules are sampled per seed, not enumerated exhaustively.",
+        text="1-3 attribute faults per run from a grammar of malformed values (path data, transform, colour, length incl. unresolvable em/ex, points, viewBox, number, style, preserveAspectRatio, clip-path; a fault may also add an attribute the element did not state, among them names the library uses as its own dictionary keys; rare strata: very long literals, nesting beyond the recursion limit, use chains, a bare group as outermost element) and use retargeting (missing, self, ancestor, mutual cycle), biased to containers, referenced elements and first/last children, injected into generated documents; the damaged document and the document without the offending elements reach SVG.parse through independently drawn delivery schedules (StringIO, BytesIO, short-read byte/text streams incl. 1-byte reads, simulated file with short raw reads). Oracles: no exception, an SVG object as result, bounded line steps on a quarter of the runs and a bound on function entries/generator resumptions relative to the document size on every other parse (a parse that never ends is a violation, not a stuck worker), identity of every instance outside the offender's position in the returned tree (reference parsed by a pristine instance of the library, schedule-chosen order of the two parses), and history independence (an unrelated document parsed between two parses of the same one). Faults and schedules are sampled per seed, not enumerated exhaustively.",
         note="Trusted: the exempt-set computation over the generator's own tree; observation through abs(Path(copy)) of every rendered shape plus text/title/desc content; the fault grammar contains only syntactically malformed values (zero/negative sizes are legal and are not injected); step budget 20x the pinned tree's maximum.")
 CLAIMED["C20"] = dict(
         level="fault_enumeration", ref="DESIGN.md 5.6",
         technique="deterministic simulation with fault injection on a simulated disk: write -> crash-after-ack freeze -> read-back histories over three generations, short raw reads/writes, injected ENOSPC/EIO at enumerated raw writes and on close, seeded document and tree generation",
-        text="Three-generation write/read histories over a simulated disk on which only what the raw file accepted is durable: string_xml and write_xml to plain, svgz, path-like names and caller-owned text/binary files; the image is frozen the instant the call returns (no GC, nothing flushed on the library's behalf); raw writes/reads are short; OSError is injected at a raw write chosen among those of the fault-free run, or on close. Oracles: the acknowledged image is a complete gzip stream/well-formed XML, no silent loss under I/O errors, shapes/paint/ids/rendered stroke width equal within the six-decimal matrix precision, fixed point from generation 1, writing leaves the tree unchanged and repeats itself, and the text equals what a pristine instance of the library writes for the same source. One known finding (arc radii pass through d() with six significant digits) is listed. Sampled, not enumerated exhaustively.",
+        text="Sources are parsed documents (reify on/off, ppi 96/72) and built trees (rendered or left with unit/percentage sizes), optionally edited through their objects before writing (ids set/cleared, paint, stroke width, *=, reify, a coordinate, the svg's size and viewBox, appended shapes: what is written must follow the objects, not the source text). Three-generation write/read histories over a simulated disk on which only what the raw file accepted is durable: string_xml and write_xml to plain, svgz, path-like names and caller-owned text/binary files; the image is frozen the instant the call returns (no GC, nothing flushed on the library's behalf); raw writes/reads are short; OSError is injected at a raw write chosen among those of the fault-free run, or on close. Oracles: the acknowledged image is a complete gzip stream/well-formed XML, no silent loss under I/O errors, shapes/paint/ids/rendered stroke width equal within the six-decimal matrix precision, fixed point from generation 1, writing leaves the tree unchanged and repeats itself, and the text equals what a pristine instance of the library writes for the same source. Arcs are compared by what they draw (centre, interior points, sweep). One known finding (arc radii pass through d() with six significant digits) is listed; it is attributed only where a 17-digit spelling reproduces the source arc. Sampled, not enumerated exhaustively.",
         note="Trusted: xml.etree as independent well-formedness check; tolerance 2e-6*(1+max local or absolute coordinate)*max(1, viewport scale); the element class and text elements are not compared; gzip reads go through the real BufferedReader over the short-reading raw file.")
 BUILDING = {}
 
